@@ -79,14 +79,18 @@ func c02Build(n int) ([]c02Pol, types.Record, types.EntityUID, bool) {
 var c02Extra = []struct {
 	add   func(*ast.Policy) *ast.Policy
 	holds bool
+	errs  bool // the clause is a type error on every request (constant non-Boolean body)
 }{
-	{func(p *ast.Policy) *ast.Policy { return p }, true},
-	{func(p *ast.Policy) *ast.Policy { return p.Unless(ast.True()) }, false},
-	{func(p *ast.Policy) *ast.Policy { return p.Unless(ast.False()) }, true},
-	{func(p *ast.Policy) *ast.Policy { return p.When(ast.True()) }, true},
-	{func(p *ast.Policy) *ast.Policy { return p.Unless(ast.Long(1).LessThan(ast.Long(2))) }, false},
-	{func(p *ast.Policy) *ast.Policy { return p.When(ast.Long(2).LessThan(ast.Long(1))) }, false},
-	{func(p *ast.Policy) *ast.Policy { return p.Unless(ast.Set(ast.String("a")).Contains(ast.String("b"))) }, true},
+	{func(p *ast.Policy) *ast.Policy { return p }, true, false},
+	{func(p *ast.Policy) *ast.Policy { return p.Unless(ast.True()) }, false, false},
+	{func(p *ast.Policy) *ast.Policy { return p.Unless(ast.False()) }, true, false},
+	{func(p *ast.Policy) *ast.Policy { return p.When(ast.True()) }, true, false},
+	{func(p *ast.Policy) *ast.Policy { return p.Unless(ast.Long(1).LessThan(ast.Long(2))) }, false, false},
+	{func(p *ast.Policy) *ast.Policy { return p.When(ast.Long(2).LessThan(ast.Long(1))) }, false, false},
+	{func(p *ast.Policy) *ast.Policy { return p.Unless(ast.Set(ast.String("a")).Contains(ast.String("b"))) }, true, false},
+	{func(p *ast.Policy) *ast.Policy { return p.Unless(ast.Long(1)) }, false, true},
+	{func(p *ast.Policy) *ast.Policy { return p.When(ast.String("yes")) }, false, true},
+	{func(p *ast.Policy) *ast.Policy { return p.Unless(ast.Long(1).Add(ast.Long(2))) }, false, true},
 }
 
 // c02Outcome: conditions are evaluated in order and stop at the first one that is false or errors.
@@ -94,7 +98,10 @@ func c02Outcome(p *c02Pol, match bool) (sat, errs bool) {
 	if !match {
 		return false, false
 	}
-	extraHolds := c02Extra[p.extra].holds
+	extraHolds, extraErrs := c02Extra[p.extra].holds, c02Extra[p.extra].errs
+	if p.before && extraErrs {
+		return false, true
+	}
 	if p.before && !extraHolds {
 		return false, false
 	}
@@ -103,6 +110,9 @@ func c02Outcome(p *c02Pol, match bool) (sat, errs bool) {
 	}
 	if !vrt.ConcretizeBool(p.s) {
 		return false, false
+	}
+	if extraErrs {
+		return false, true
 	}
 	return extraHolds, false
 }
